@@ -3,6 +3,7 @@ import NixModel.Pure.Tree
 import NixModel.Pure.TreeShape
 import NixModel.Pure.TreeIds
 import NixModel.Pure.TreeIdsRef
+import NixModel.Pure.TreeIdsRel
 import NixModel.Generated.FindShape
 import NixModel.Generated.IdLookup
 open Lean Nix Nix.Tree Nix.Tree.Shape Nix.Tree.Ids Nix.Generated
@@ -203,7 +204,7 @@ def handle (texts : Nat → String) (f : File) (j : Json) : File × Json :=
     match jNat? k, filter? filt with
     | some k, some fl =>
       let res (c : Bool) : File × Json :=
-        (f, exceptKeys ((findRelatedG FindShape.sectionParent FindShape.related f k c fl).map fun l => l.map Node.key))
+        (f, exceptKeys ((findRelatedT FindShape.sectionParent FindShape.related IdLookup.shape texts f k c fl).map fun l => l.map Node.key))
       match via with
       | Json.str "cached" => res true
       | Json.str "fresh" => res false
@@ -309,6 +310,12 @@ def handleS (s : St) (j : Json) : St × Json :=
         | some c => ok (Json.str c)
         | none => err .valueError)
   | [Json.str "create_section", p, n, t, Json.str oid] => createS s p n t (some oid)
+  -- `oid=uuid.UUID(text)`: `is_uuid` / `create_new` look at `str(oid)`, the canonical text (no id at all: ValueError
+  -- before nixio is called)
+  | [Json.str "create_section", p, n, t, Json.arr #[Json.str "uuid", Json.str text]] =>
+    match canonText? text with
+    | some c => createS s p n t (some c)
+    | none => (s, err .valueError)
   | [Json.str "import_section", dest, tree] =>
     match importNode s dest tree with
     | some (s', r) =>
